@@ -17,7 +17,7 @@ func init() {
 		ID: "C20", Level: "exploration",
 		Rule: "one case = one history of 3..9 statements of a transaction A (plain SELECT, SELECT through a sub-query / CTE / self-join, SELECT FOR UPDATE, INSERT, UPDATE, DELETE, COMMIT, ROLLBACK on one table) executed statement by statement by an in-process processor without auto-commit (what the interactive shell does), and for EVERY subset of at most two gaps between A's statements a second, real csvq process B rewrites a version stamp in every row of the file and commits (wait-timeout 0.2 s) in exactly those gaps. " +
 			"Oracle: a model of A's working copy (loaded at the first access from the disk version of that moment; re-loaded only at the first data-changing or FOR UPDATE access after a plain SELECT, and after COMMIT/ROLLBACK; A's own changes on top) must equal every result A reads; while A holds the table for update B must fail with the lock-timeout exit status and leave the file unchanged; after A's COMMIT the file must equal A's copy. non-trivial = B committed in at least one gap while A had the table loaded and A read it afterwards; distinct = (history, gap set).",
-		Quick: 150, Thorough: 3000, FloorQuick: 600, FloorThorough: 12000,
+		Quick: 180, Thorough: 3000, FloorQuick: 500, FloorThorough: 12000,
 		CaseTimeout: 10 * time.Minute,
 		Assumptions: []string{"B runs to completion inside a gap (no overlap in time with a statement of A): the property is about what A sees between its own statements", "the version seen after a failed lock upgrade is not specified and cannot occur here (B never holds the lock across a gap)"},
 		Setup:       func(w *core.Worker) { core.HermeticProcess(w.Work) },
@@ -75,7 +75,13 @@ func c20Case(w *core.Worker, i int) {
 	var hist []stmt
 	insN := 0
 	for k := 0; k < n; k++ {
-		switch c := r.Intn(16); {
+		switch c := r.Intn(17); {
+		case c == 16 && i%4 != 3:
+			// a table attribute set to the value it has: nothing changes, but the statement is a data-changing one — the table is
+			// held from here on like after an UPDATE that matches no row
+			hist = append(hist, stmt{"noopalter", []string{"ALTER TABLE t SET DELIMITER TO ',';", "ALTER TABLE t SET HEADER TO TRUE;", "ALTER TABLE t SET LINE_BREAK TO LF;", "ALTER TABLE t SET ENCLOSE_ALL TO FALSE;", "UPDATE t SET note = 'never' WHERE id = 999;", "DELETE FROM t WHERE id = 999;"}[r.Intn(6)]})
+		case c == 16:
+			hist = append(hist, stmt{"noopalter", []string{"UPDATE t SET note = 'never' WHERE id = 999;", "DELETE FROM t WHERE id = 999;"}[r.Intn(2)]})
 		case c >= 14 && i%4 == 3:
 			hist = append(hist, stmt{"select", "SELECT id, ver, note FROM t;"}) // (the JSON histories keep to ids whose spelling the file fixes)
 		case c == 14:
@@ -273,7 +279,7 @@ func c20Run(w *core.Worker, ci int, hsql []string, kind func(int) string, gaps [
 				viol(k, "stale-or-foreign-data:"+kind(k), fmt.Sprintf("A read [%s], its transaction must see [%s] (file now: [%s])", c20Text(got), c20Text(expect), c20Text(disk)))
 				return
 			}
-		case "update", "insert", "delete", "replace":
+		case "update", "insert", "delete", "replace", "noopalter":
 			if !exclusive {
 				// first data-changing access: the documented reload
 				work, loaded, exclusive = cp(disk), true, true
